@@ -351,6 +351,10 @@ def child_sync(which, form: int, cfail: bool, slow: bool, par: bool, c0: int, c1
                 return "C15 parent outcome %r, expected States.Timeout" % (p,)
             if inst.td.pending_requests or inst.td.cancellers or [t for t in sim.BROKER.timers if not inst.is_heartbeat(t)]:
                 return "C15 child's pending work not cancelled after the parent timed out"
+            # the Wait the child was blocked on is cancelled at that moment: the child must not carry on and finish later
+            stop = {a: [m["detail"].get("stopDate") for s_, m in sim.BROKER.topic if m["detail"]["executionArn"] == a and m["detail"]["status"] != "RUNNING"] for a in (parents[0], kids[0])}
+            if k[0] == "SUCCEEDED" or not stop[kids[0]] or stop[kids[0]][0] > stop[parents[0]][0]:
+                return "C15 the child went on after its parent Task had timed out: child %r stopped at %s, parent at %s" % (k, stop[kids[0]], stop[parents[0]])
             return ""
         # (the child's terminal notification is broadcast right after the parent has been resumed from
         #  inside the child's end_execution, so notification order is not a usable "child is terminal" signal;
@@ -375,16 +379,28 @@ def child_sync(which, form: int, cfail: bool, slow: bool, par: bool, c0: int, c1
 def _cb_scenario(which, stream: int, c0: int, c1: int, c2: int, c3: int):
     """A .waitForTaskToken task: the worker receives the token and (per `stream`) the harness presents
     0: the valid token once, 1: twice, 2: a forged token then the valid one, 3: ordinary reply first then the valid
-    token, 4: the valid token as SendTaskFailure, 5: only a forged token (task must stay pending until it times out)."""
+    token, 4: the valid token as SendTaskFailure, 5: only a forged token (task must stay pending until it times out),
+    6: two callback Tasks in sequence, each answered with the token it received, 7: a retried callback Task."""
     t = {"Type": "Task", "Resource": "arn:aws:states:local::rpcmessage:invoke.waitForTaskToken", "TimeoutSeconds": 20,
          "Parameters": {"FunctionName": "arn:aws:rpcmessage:local::function:fw", "Payload": {"token.$": "$$.Task.Token"}},
          "ResultPath": "$.cb", "End": True}
     asl = {"StartAt": "T", "States": {"T": t}}
-    state = {"tok": None, "sent": 0}
+    if stream == 6:
+        # two callback Tasks one after the other: each must be completed by the token IT received
+        t2 = dict(t); t2["ResultPath"] = "$.cb2"
+        t1 = dict(t); t1.pop("End"); t1["Next"] = "T2"
+        asl = {"StartAt": "T", "States": {"T": t1, "T2": t2}}
+    elif stream == 7:
+        # a callback Task with a Retrier: the first attempt is failed through SendTaskFailure, the retried attempt
+        # (a new event, a new token) is completed through SendTaskSuccess
+        t1 = dict(t); t1["Retry"] = [{"ErrorEquals": ["E1"], "IntervalSeconds": 1, "MaxAttempts": 1, "BackoffRate": 1.0}]
+        asl = {"StartAt": "T", "States": {"T": t1}}
+    state = {"tok": None, "sent": 0, "toks": []}
     fe = api.FE[0]
 
     def w(req):
         state["tok"] = req["token"]
+        state["toks"].append(req["token"])
         return {"received": True} if stream == 3 else None
 
     def pre(run, inst):
@@ -402,6 +418,10 @@ def _cb_scenario(which, stream: int, c0: int, c1: int, c2: int, c3: int):
             return "" if p == ("FAILED", "E1") else "C15 SendTaskFailure: outcome %r" % (p,)
         if p[0] != "SUCCEEDED" or p[1].get("cb") != {"out": 1}:
             return "C15 callback outcome %r" % (p,)
+        if stream == 6 and p[1].get("cb2") != {"out": 1}:
+            return "C15 second callback Task outcome %r" % (p,)
+        if stream in (6, 7) and (len(state["toks"]) != 2 or state["toks"][0] == state["toks"][1]):
+            return "C15 the two callback Tasks received the tokens %r (each Task must get its own)" % (state["toks"],)
         return ""
 
     # the callbacks are injected when the worker has seen the request: drive manually
@@ -416,15 +436,16 @@ def _cb_scenario(which, stream: int, c0: int, c1: int, c2: int, c3: int):
     fe2.engine.task_dispatcher.producer = inst.td.producer
     stubs.CLOCK.now = 1_700_000_000.0
     inst.ed.publish(sim.start_event({"x": 1}, arn), use_shared_queue=True)
-    injected = False
+    injected = 0
     while run.steps < run.max_steps:
-        if state["tok"] is not None and not injected:
-            injected = True
+        if len(state["toks"]) > injected:
+            injected += 1
             tok = state["tok"]
             forged = _b64.b64encode(b"zz.waitForTaskToken:asl_workflow_reply_to-i1").decode()
-            seq = {0: [tok], 1: [tok, tok], 2: [forged, tok], 3: [tok], 4: ["F" + tok], 5: [forged]}[stream]
+            seq = {0: [tok], 1: [tok, tok], 2: [forged, tok], 3: [tok], 4: ["F" + tok], 5: [forged], 6: [tok],
+                   7: ["F" + tok] if injected == 1 else [tok]}[stream]
             for tk in seq:
-                if tk.startswith("F") and stream == 4:
+                if tk.startswith("F") and stream in (4, 7):
                     r = _call(fe2, "SendTaskFailure", taskToken=tk[1:], error="E1", cause="why")
                 else:
                     r = _call(fe2, "SendTaskSuccess", taskToken=tk, output='{"out": 1}')
@@ -455,7 +476,51 @@ def child_sync_runs(form: int, cfail: bool, slow: bool, par: bool, c0: int, c1: 
 @condition(timeout={"quick": 300, "thorough": 900}, functions=scn.ENGINE_FUNCS + ["aws_api_SendTaskSuccess/Failure", "handle_rpcmessage_response (callbacks)"])
 def callback_runs(stream: int, c0: int, c1: int, c2: int, c3: int) -> str:
     """
-    requires: 0 <= stream < 6
+    requires: 0 <= stream < 8
     ensures: _ == ""
     """
     return _cb_scenario({"C15", "C02", "C03"}, stream, c0, c1, c2, c3)
+
+
+def grandchild_sync(which, leaf: int, c0: int, c1: int, c2: int, c3: int, c4: int, c5: int):
+    """Three levels: the parent's .sync:2 Task (TimeoutSeconds 5) launches `child`, whose own .sync:2 Task launches
+    `grand`, which is blocked on a 30 s Wait (leaf 0) or on a Task whose worker never replies (leaf 1).  When the
+    parent Task times out, the cancellation must reach what the grandchild is blocked on."""
+    leaf = stubs.cint(leaf, 0, 1)
+    asl = _parent(2, 5, False)
+    child = {"StartAt": "C", "States": {"C": {"Type": "Task", "Resource": "arn:aws:states:local::states:" + FORMS[2],
+             "Parameters": {"StateMachineArn": "arn:aws:states:local:0123456789:stateMachine:grand", "Input": {"i.$": "$.i"}}, "End": True}}}
+    if leaf == 0:
+        grand = {"StartAt": "GW", "States": {"GW": {"Type": "Wait", "Seconds": 30, "Next": "GZ"}, "GZ": {"Type": "Pass", "End": True}}}
+    else:
+        grand = {"StartAt": "GT", "States": {"GT": scn.task("fg", End=True)}}
+
+    def chk(run, inst, mon):
+        per = mon.per_exec()
+        by = {}
+        for a in per:
+            by[a.split(":")[-2]] = a
+        if sorted(by) != ["child", "grand", "m"]:
+            return "C15 executions %s" % sorted(per)
+        p = s2.result_of(by["m"])
+        if p != ("FAILED", "States.Timeout"):
+            return "C15 parent outcome %r, expected States.Timeout" % (p,)
+        if inst.td.pending_requests or inst.td.cancellers or [t for t in sim.BROKER.timers if not inst.is_heartbeat(t)]:
+            return "C15 pending work of the child / grandchild not cancelled after the parent timed out: %s %s" % (list(inst.td.pending_requests), list(inst.td.cancellers))
+        stop = {k: [m["detail"].get("stopDate") for s_, m in sim.BROKER.topic if m["detail"]["executionArn"] == a and m["detail"]["status"] != "RUNNING"] for k, a in by.items()}
+        for k in ("child", "grand"):
+            r = s2.result_of(by[k])
+            if r[0] == "SUCCEEDED" or not stop[k] or stop[k][0] > stop["m"][0]:
+                return "C15 the %s execution went on after the parent Task had timed out: %r stopped at %s, parent at %s" % (k, r, stop[k], stop["m"])
+        return ""
+    return s2.run_scenario(asl, {"x": 7}, [c0, c1, c2, c3, c4, c5], {"fg": lambda req: None}, which, "STANDARD", None,
+                           children=[("child", child, "STANDARD"), ("grand", grand, "STANDARD")], extra_check=chk, max_steps=150)
+
+
+@condition(timeout={"quick": 300, "thorough": 900}, functions=scn.ENGINE_FUNCS + ["asl_service_states_startExecution", "TaskDispatcher.cancel_task (recursion through nested synchronous children)", "set_sfn_canceller"])
+def grandchild_cancellation(leaf: int, c0: int, c1: int, c2: int, c3: int, c4: int, c5: int) -> str:
+    """
+    requires: 0 <= leaf < 2
+    ensures: _ == ""
+    """
+    return grandchild_sync({"C15", "C02", "C03"}, leaf, c0, c1, c2, c3, c4, c5)
